@@ -78,8 +78,8 @@ class Ctx:
             if self.only_case is not None:
                 if cid != self.only_case:
                     continue
-            elif idx % self.nshards != self.shard:
-                continue
+            elif (idx + idx // self.nshards) % self.nshards != self.shard:
+                continue  # diagonal assignment: consecutive blocks of nshards cases are rotated over the shards
             self.case_id = cid
             self.r["programs"] += 1
             h = short_hash(cid)
